@@ -195,11 +195,45 @@ class Registry:
         bases = [b for b in bases if b is not object] or [object]
         try:
             t = type(ci.name, tuple(bases), {'__module__': ci.module.name})
-        except TypeError:
+        except Exception:   # noqa: BLE001 - enum / metaclass bases cannot be subclassed this way
             t = type(ci.name, (object,), {'__module__': ci.module.name})
         self._synth[ci.fq] = t
         self.synth_info[t] = ci
+        # dataclass-style field annotations become real typing objects (strings under `from __future__ import annotations`)
+        ann = {}
+        for st in ci.node.body:
+            if isinstance(st, ast.AnnAssign) and isinstance(st.target, ast.Name):
+                ann[st.target.id] = self._annotation(ci.module, st.annotation)
+        if ann:
+            t.__annotations__ = ann
         return t
+
+    def _annotation(self, module, expr):
+        if isinstance(expr, ast.Constant) and isinstance(expr.value, str):
+            try:
+                expr = ast.parse(expr.value, mode='eval').body
+            except SyntaxError:
+                return typing.Any
+        if isinstance(expr, ast.Subscript):
+            head = ast.unparse(expr.value).split('.')[-1]
+            args = expr.slice.elts if isinstance(expr.slice, ast.Tuple) else [expr.slice]
+            sub = [self._annotation(module, a) for a in args]
+            if head == 'Optional':
+                return typing.Optional[sub[0]]
+            if head == 'Union':
+                return typing.Union[tuple(sub)]
+            return typing.Any
+        if isinstance(expr, ast.Constant) and expr.value is None:
+            return NoneT
+        if isinstance(expr, (ast.Name, ast.Attribute)):
+            if ast.unparse(expr).split('.')[-1] == 'Any':
+                return typing.Any
+            try:
+                t = self.tok(module, expr)
+                return t if isinstance(t, type) else typing.Any
+            except AnalysisError:
+                return typing.Any
+        return typing.Any
 
     # ------------------------------------------------------------------ symbolic evaluation
     def ev(self, expr, env, module, scope=None):
